@@ -227,12 +227,13 @@ fn universe(ikind: &str) -> Vec<MarketDataInstrument> {
     let yb1 = Utc.with_ymd_and_hms(2024, 12, 30, 8, 0, 0).unwrap();
     let yb2 = Utc.with_ymd_and_hms(2025, 12, 30, 8, 0, 0).unwrap();
     let fut = |e| MarketDataInstrumentKind::Future(MarketDataFutureContract { expiry: e });
-    let opt = |kind, e, strike: i64| {
+    // strike in tenths (canonical decimals: 50000, 2, 2.5)
+    let opt = |kind, e, strike_tenths: i64| {
         MarketDataInstrumentKind::Option(MarketDataOptionContract {
             kind,
             exercise: OptionExercise::European,
             expiry: e,
-            strike: Decimal::from(strike),
+            strike: Decimal::new(strike_tenths, 1).normalize(),
         })
     };
     let mk = |b: &str, q: &str, k| MarketDataInstrument::new(b, q, k);
@@ -251,11 +252,12 @@ fn universe(ikind: &str) -> Vec<MarketDataInstrument> {
             mk("1inch", "usdt", fut(exp2)),
         ],
         "option" => vec![
-            mk("btc", "usdt", opt(OptionKind::Call, yb1, 50000)),
-            mk("btc", "usdt", opt(OptionKind::Call, yb2, 50000)),
-            mk("btc", "usdt", opt(OptionKind::Put, yb1, 50000)),
-            mk("btc", "usdt", opt(OptionKind::Call, yb2, 5000)),
-            mk("1inch", "Usdt", opt(OptionKind::Put, exp1, 2)),
+            mk("btc", "usdt", opt(OptionKind::Call, yb1, 500000)),
+            mk("btc", "usdt", opt(OptionKind::Call, yb2, 500000)),
+            mk("btc", "usdt", opt(OptionKind::Put, yb1, 500000)),
+            // the same contract with strike 2 and with the fractional strike 2.5
+            mk("1inch", "Usdt", opt(OptionKind::Put, exp1, 20)),
+            mk("1inch", "Usdt", opt(OptionKind::Put, exp1, 25)),
         ],
         other => usage(&format!("unknown instrument kind {other}")),
     }
@@ -450,13 +452,28 @@ fn echo_of(fam: Fam, token: &str) -> String {
 ///                     "BTC-USD-191227", "BTC-USD-231229-35000-C" in okx/subscription.rs, okx/trade.rs)
 ///   Gate.io YYYYMMDD ("20241231" = 31st of December 2024, doc comment of gateio/market.rs::format_expiry;
 ///                     "ETH_USDT_QUARTERLY_20201225" in gateio/perpetual/trade.rs)
-/// - independently of how the connector formatted it.
+/// - independently of how the connector formatted it.  Likewise the STRIKE component of an option
+/// symbol is the canonical decimal string of the contract's strike, without trailing zeros and with
+/// its fraction ("BTC-USD-231229-35000-C" in okx/trade.rs; a 2.5 strike is "...-2.5-C"), rendered by
+/// the venue from the contract's strike.
 fn venue_symbol(route: &Route, inst: &MarketDataInstrument, echo: String) -> Result<String, String> {
     use chrono::Datelike;
     let (expiry, option) = match &inst.kind {
         MarketDataInstrumentKind::Future(c) => (c.expiry, false),
         MarketDataInstrumentKind::Option(c) => (c.expiry, true),
         _ => return Ok(echo),
+    };
+    let echo = match (&inst.kind, route.fam) {
+        (MarketDataInstrumentKind::Option(c), Fam::Okx | Fam::GateioFut) => {
+            let idx = if route.fam == Fam::Okx { 3 } else { 2 };
+            let mut parts: Vec<String> = echo.split('-').map(|x| x.to_string()).collect();
+            match parts.get(idx) {
+                Some(x) if !x.is_empty() && x.chars().all(|c| c.is_ascii_digit() || c == '.') => parts[idx] = c.strike.normalize().to_string(),
+                _ => return Err(format!("no strike component at position {idx} of the requested symbol {echo}")),
+            }
+            parts.join("-")
+        }
+        _ => echo,
     };
     let d = expiry.date_naive();
     // (separator, index of the expiry component, rendered expiry)
